@@ -27,7 +27,7 @@ def plan(tier, seed):
 
 
 def gen(rng):
-  return model_docs.generate(rng, "text", None)
+  return model_docs.generate(rng, "text", None, p_uspace=0.1)
 
 
 def run(ctx, params):
